@@ -52,6 +52,10 @@ pub fn driver_encode_cell(ct: &scylla_cql_core::frame::response::result::ColumnT
     Ok(buf)
 }
 
+pub fn structural_pub(t: &MType, v: &MVal) -> MVal {
+    structural(t, v)
+}
+
 fn structural(t: &MType, v: &MVal) -> MVal {
     // pad tuples / order UDT fields but keep varint bytes as given ("passed to DB as is")
     match (t, v) {
